@@ -403,6 +403,11 @@ fn yaml_separators_reader_equals_slice() {
 		"%YAML 1.2\n---\na: 1\n...\n%YAML 1.2\n---\nb: 2\n",
 		"- 1\n- 2\n---\n...\n---\nx\n",
 		"a: 1\n...\n\n\n...\n---\n- b\n---\n- c\n...\n",
+		// indented first lines: the chunk must keep the indentation in front of a document's first token
+		"  a: 1\n  b: 2\n",
+		"  - x\n  - y\n",
+		"# c\n  a:\n    c: 1\n  b: 2\n---\n   - q\n   - r\n",
+		"\n\n    k: [1, 2]\n    l:\n      - m\n",
 	];
 	let mut bad = vec![];
 	for text in streams {
